@@ -162,6 +162,9 @@ def run_case(spec, ctx):
         except Exception as e:
             ctx.undecided(f"reference run failed: {type(e).__name__}: {e}"[:150]); ctx.sig([det], nontrivial=False); return
         tF, qF, uF = np.asarray(full.t), np.asarray(full.q), np.asarray(full.u)
+        if len(tF) < N + 1:
+            # the reference run itself was truncated by the solver (announced non-convergence, C21's subject): nothing to split
+            ctx.undecided(f"reference run returned only {len(tF)} of {N + 1} instants"); ctx.sig([det], nontrivial=False); return
         ks = list(range(1, N)) if spec["all_k"] else sorted(set(int(x) for x in np.linspace(1, N - 1, 6)))
         probe_seed = int(rng.integers(1 << 30))
         moved = False
